@@ -345,3 +345,37 @@ Proof.
     unfold valid_idx, len. lia. }
   rewrite C1, C2, C3, C4, Hdis, C6, C7, C8, C9, C10, C11, C12, C13, T1, T2, T3, T4. reflexivity.
 Qed.
+
+(* ------------------------------------------------------------------ material-content is refuted for the faithful model *)
+(* PolyformTexture.equal ignores the texture's extensions (and the sampler name): two materials that
+   differ only there are merged, and the second model's primitive refers to a material whose texture
+   reference carries the first model's KHR_texture_transform.  (fixes/C06-texture-equal-ignores-extensions) *)
+Definition tx_plain : ptexture := {| tx_ptr := 1; tx_uri := "a.png"; tx_samp := None; tx_exts := [] |}.
+Definition tx_transformed : ptexture :=
+  {| tx_ptr := 0; tx_uri := "a.png"; tx_samp := None; tx_exts := [("KHR_texture_transform"%string, false)] |}.
+Definition mat_with (ptr : N) (t : ptexture) : pmaterial :=
+  {| pm_ptr := ptr; pm_name := "x";
+     pm_pbr := Some {| pb_color := None; pb_tex := Some t; pb_metal := None; pb_rough := None; pb_mrtex := None |};
+     pm_exts := []; pm_normal := None; pm_occ := None; pm_emissive := None; pm_alpha := None; pm_cutoff := None |}.
+Definition tex_ext_scene : scene :=
+  {| sc_models := [ {| mo_name := "a"; mo_mesh := tri_mesh 0; mo_mat := Some (mat_with 0 tx_transformed);
+                       mo_t := None; mo_r := None; mo_s := None; mo_inst := [] |};
+                    {| mo_name := "b"; mo_mesh := tri_mesh 0; mo_mat := Some (mat_with 1 tx_plain);
+                       mo_t := None; mo_r := None; mo_s := None; mo_inst := [] |} ];
+     sc_lights := [] |}.
+
+Theorem material_content_refuted_witness :
+  exists sc, scene_ok sc /\ scene_ptr_ok sc /\ scene_rejected sc = false /\
+             gltf_check_struct sc (obs_text sc) = [] /\
+             In "material-content"%string (gltf_check_models sc (obs_text sc)) /\ gltf_validb sc (obs_text sc) = false.
+Proof.
+  exists tex_ext_scene. split; [|split; [|split; [|split; [|split]]]].
+  - unfold scene_ok, tex_ext_scene. cbn [sc_models].
+    repeat constructor; cbn; try lia; try (vm_compute; reflexivity).
+  - intros m1 m2 (mo1 & H1 & ->) (mo2 & H2 & ->) _. cbn [sc_models tex_ext_scene In] in H1, H2.
+    destruct H1 as [<-|[<-|[]]], H2 as [<-|[<-|[]]]; reflexivity.
+  - vm_compute. reflexivity.
+  - vm_compute. reflexivity.
+  - vm_compute. tauto.
+  - vm_compute. reflexivity.
+Qed.
